@@ -200,6 +200,7 @@ static PCToken      MomSection;
 static char*        LastGlobSymbol;
 static PFunction    FirstFunction; /* Liste definierter Funktionen */
 static LongInt      UserFuncDepth; /* nesting depth of user-defined function bodies being evaluated */
+static Boolean      UserFuncAbort; /* nesting limit was hit: unwind without evaluating further bodies */
 
 void AsmParsInit(void) {
     FirstSymbol = NULL;
@@ -1524,6 +1525,11 @@ void EvalStrExpression(tStrComp const* pExpr, TempResult* pErg) {
             PromotedDataSize      = eSymbolSizeUnknown;
             as_dynstr_ini_c_str(&CompArgStr, ValFunc->Definition);
             as_dynstr_ini(&stemp, STRINGSIZE);
+            if (UserFuncAbort) {
+                /* the error has been reported: the other calls of the same formula fail silently,
+                   otherwise a body with two recursive calls is evaluated 2^NESTMAX times */
+                LEAVE2;
+            }
             for (z1 = 1; z1 <= ValFunc->ArguCnt; z1++) {
                 if (!*FArg.str.p_str) {
                     WrError(ErrNum_InvFuncArgCnt);
@@ -1567,11 +1573,15 @@ void EvalStrExpression(tStrComp const* pExpr, TempResult* pErg) {
             StrCompMkTemp(&CompArg, CompArgStr.p_str, CompArgStr.capacity);
             if (UserFuncDepth >= ((NestMax > 0) ? NestMax : DEF_NESTMAX)) {
                 WrError(ErrNum_RekMacro);
+                UserFuncAbort = True;
                 LEAVE2;
             }
             UserFuncDepth++;
             EvalStrExpression(&CompArg, pErg);
             UserFuncDepth--;
+            if (!UserFuncDepth) {
+                UserFuncAbort = False;
+            }
             pErg->Flags |= PromotedFlags;
             pErg->AddrSpaceMask |= PromotedAddrSpaceMask;
             if (pErg->DataSize == eSymbolSizeUnknown) {
